@@ -20,7 +20,7 @@ pub enum Act {
     Feed(usize),
     /// feed through another call form: 1 = single-block call in place, 2 = single-block call buffer to buffer,
     /// 3 = `write_keystream_block` + XOR (cores), 4 = `write_keystream_blocks` of PAR+1 blocks + XOR (cores),
-    /// 5 / 6 = caller-supplied closure (`*_with_backend` / `process_with_backend`) over PAR / PAR+1 blocks
+    /// 5..9 = caller-supplied closures (`*_with_backend` / `process_with_backend`) of five shapes over PAR / PAR+1 blocks
     Via(u8),
     Reinst,
     /// `set_block_pos(p)` on a seekable core (position relative to the IV of the current instance)
@@ -62,10 +62,11 @@ impl Obj {
                     *b ^= k;
                 }
             }
-            (Obj::Bm(b), 5) | (Obj::Bm(b), 6) => b.many_closure(f - 4, buf),
-            (Obj::Core(c), 5) | (Obj::Core(c), 6) => {
+            // caller-supplied closure shapes: 5 -> 1, 6 -> 2, 7 -> 3 (in-place backend methods), 8 -> 4, 9 -> 6 (misaligned groups)
+            (Obj::Bm(b), 5..=9) => b.many_closure(if f == 9 { 6 } else { f - 4 }, buf),
+            (Obj::Core(c), 5..=9) => {
                 let mut ks = vec![0u8; buf.len()];
-                c.write_blocks_closure(f - 4, &mut ks);
+                c.write_blocks_closure(if f == 9 { 6 } else { f - 4 }, &mut ks);
                 for (b, k) in buf.iter_mut().zip(&ks) {
                     *b ^= k;
                 }
@@ -122,8 +123,8 @@ impl ResumeMachine<'_> {
             (_, 1) | (_, 2) => Some(1),
             (true, 3) => Some(1),
             (true, 4) => Some(par + 1),
-            (_, 5) => Some(par),
-            (_, 6) => Some(par + 1),
+            (_, 5) | (_, 7) => Some(par),
+            (_, 6) | (_, 8) | (_, 9) => Some(par + 1),
             _ => None,
         }
     }
@@ -167,7 +168,7 @@ impl Machine for ResumeMachine<'_> {
                 v.push(Act::Feed(s));
             }
         }
-        for f in 1..=6u8 {
+        for f in 1..=9u8 {
             if let Some(n) = self.via_len(f) {
                 if used + n <= self.nmax {
                     v.push(Act::Via(f));
